@@ -2042,6 +2042,7 @@ def translate(ll_text, roots, cut=(), opts=None, keep_addr_taken=()):
     cut_re = [re.compile(c) for c in cut]
     noop_re = [re.compile(c) for c in opts.get('cut_noop', [])]
     noops = []
+    extra_defs = []
     keep_re = [re.compile(c) for c in keep_addr_taken]
 
     def is_cut(n):
@@ -2106,7 +2107,12 @@ def translate(ll_text, roots, cut=(), opts=None, keep_addr_taken=()):
             em.complete(g.ty)
             cn = em.cident(name)
             ctn = em.ct(g.ty)
-            if g.external or g.init is None:
+            if (g.external or g.init is None) and name.startswith(('_ZTI', '_ZTS', '_ZTV')):
+                # RTTI objects / vtables defined in other translation units or libstdc++: only their addresses are
+                # used by the translated code; give them a (zero) definition so that the unit links on its own
+                gl_decls.append('extern %s %s;' % (ctn, cn))
+                extra_defs.append('%s %s;' % (ctn, cn))
+            elif g.external or g.init is None:
                 gl_decls.append('extern %s %s;' % (ctn, cn))
                 defmacros.append('#define DECLG_%s 1' % cn)
             else:
@@ -2140,7 +2146,7 @@ def translate(ll_text, roots, cut=(), opts=None, keep_addr_taken=()):
     have = ['#define HAVE_%s 1' % tg for tg in sorted(em.used_tags)]
     h = [PRELUDE, '\n'.join(em.fwd), '\n'.join(em.tdecl), '\n'.join(have), '\n'.join(defmacros), '\n'.join(gl_decls),
          '\n'.join(proto_txt)]
-    c = ['#include "unit.h"', '\n'.join(gtxt), '\n\n'.join(fn_bodies)]
+    c = ['#include "unit.h"', '\n'.join(extra_defs), '\n'.join(gtxt), '\n\n'.join(fn_bodies)]
     def tdesc(t):
         d = {'c': em.ct(t), 'kind': t[0]}
         if t[0] == 'ptr':
